@@ -27,7 +27,7 @@ AVERAGES = ["bulk_modulus_voigt", "bulk_modulus_reuss", "bulk_modulus_voigt_reus
 def spec_of(case):
     s = dict(DATASETS[case["data"]])
     q = dict(TGRIDS[case["tgrid"]])
-    if "pgrid" in case and case["pgrid"] != "between":
+    if "pgrid" in case and case["pgrid"] not in ("between", "pmin-offset"):
         pmin, dp, ntv = INSIDE[case["pgrid"]] if isinstance(case["pgrid"], str) else case["pgrid"]
         q.update(P_MIN=pmin, DELTA_P=dp, DELTA_P_SAMPLE=dp * case.get("sample_stride", 1), NTV=ntv)
     s["qha"] = q
@@ -60,6 +60,16 @@ def run_case(case):
             ref = P.Pipeline(d, repo_root(), laws=ds["laws"])
         except Exception as ex:
             raise HarnessError(f"reference pipeline failed: {ex!r}")
+        if case.get("pgrid") == "pmin-offset":
+            # grid starting at P_MIN = reach/2 whose top lies 30 % above the reach: overshoots by less than P_MIN
+            reach0 = ref.p_reach_gpa
+            pmin = round(0.5 * reach0, 1)
+            spec["qha"].update(P_MIN=pmin, NTV=41, DELTA_P=float((1.3 * reach0 - pmin) / 40), DELTA_P_SAMPLE=float((1.3 * reach0 - pmin) / 40))
+            ds, st = synth.write(d, spec)
+            ref = P.Pipeline(d, repo_root(), laws=ds["laws"])
+            if not (ref.p_desired_max_gpa >= 1.2 * ref.p_reach_gpa and ref.p_desired_max_gpa - ref.p_reach_gpa < pmin):
+                raise HarnessError("pmin-offset construction failed")
+            case = dict(case, near=True)
         if case.get("pgrid") == "between":
             # requested maximum half way between the reach at the coldest and at the hottest isotherm: above the pressure
             # reachable at *every* temperature, so it must be rejected (DELTA_P only: the fine volume grid is unchanged)
@@ -143,6 +153,7 @@ def run_case(case):
         for nm in AVERAGES:
             quantities.append((nm, lambda nm=nm: (getattr(vb, nm), getattr(pb, nm))))
         nq_checked = 0
+        held = []
         for name, get in quantities:
             try:
                 f_tv, f_tp = get()
@@ -153,6 +164,7 @@ def run_case(case):
             if f_tp.shape != (nt, npz):
                 viol.append(V("c06:shape", f"{name}: pressure-base shape {f_tp.shape} expected {(nt, npz)}"))
                 continue
+            held.append((name, get()[1], f_tp.copy()))
             for a in range(nt):
                 r, tol = isotherm_reference(p_tv[a], f_tv[a], p_arr)
                 bad = ~(numpy.abs(f_tp[a] - r) <= tol)
@@ -162,6 +174,18 @@ def run_case(case):
                                   f"{name} at T={t[a]:g} K, P index {j}: {float(f_tp[a, j])!r}, value on the isotherm at that pressure {float(r[j])!r} (tolerance {float(tol[j]):.2e})"))
                     break
             nq_checked += 1
+        # a table handed out earlier must not change when later tables are requested (no shared output buffer)
+        for name, arr, snapshot in held:
+            if not numpy.array_equal(numpy.asarray(arr, float), snapshot):
+                viol.append(V("c06:table-changed-after-later-request", f"the array returned for {name} changed after other pressure-base quantities were requested"))
+                break
+        try:
+            both = dict(pb.modulus_adiabatic.items())
+            ks = list(both)
+            if len(ks) >= 2 and any(numpy.array_equal(numpy.asarray(both[ks[0]]), numpy.asarray(both[k])) for k in ks[1:3]):
+                viol.append(V("c06:items-alias", "dict(pressure_base.modulus_adiabatic.items()) maps different components to identical tables"))
+        except Exception as ex:
+            viol.append(V(f"c06:items-raises:{type(ex).__name__}", K.fmt_exc(ex)))
         # (iv) V(T,P): decreasing in P and P(T, V(T,P)) = P
         try:
             v_tp = numpy.asarray(pb.volumes, float)
@@ -198,13 +222,15 @@ def overshoot_cases():
             out.append({"data": data, "tgrid": "t0", "pgrid": pg, "sample_stride": stride, "expect": "error"})
         for tg in ("hot", "t1"):
             out.append({"data": data, "tgrid": tg, "pgrid": "between", "expect": "error"})
+        for tg in ("t0", "t2"):
+            out.append({"data": data, "tgrid": tg, "pgrid": "pmin-offset", "expect": "error"})
     return out
 
 
 def explore(ctx):
     ctx.rule = ("3 synthetic data sets x 3 temperature grids x 4 inside pressure grids (max requested <= reach/2): every modulus "
                 "(adiabatic, isothermal, attribute spellings), compliances, 6 averages, 2 velocities and V at every (T,P) node vs an "
-                "independent cubic spline along the isotherm; pressure round trip; exact conversion of cubic-in-P fields; plus 54 "
+                "independent cubic spline along the isotherm; pressure round trip; exact conversion of cubic-in-P fields; plus 60 "
                 "overshooting grids (max requested >= 2x reach) and 6 grids whose maximum lies between the reach of the coldest and the hottest isotherm, all of which must be rejected; complete in both tiers; non-trivial = >10 quantities checked")
     ctx.assumptions = ["qha's P(T,V) and V(T,P) are trusted as a library", "tolerance: 25% of the local cell variation (DESIGN §5)"]
     inside = [{"data": dname, "tgrid": tg, "pgrid": pg} for dname in DATASETS for tg in TGRIDS if tg != "hot" for pg in INSIDE]
